@@ -996,8 +996,15 @@ class TriaMesh:
             startt = time.time()
             while len(v.data) < tdim:
                 count = count + 1
-                v = tmat * v
-                v.data = np.sign(v.data)
+                vnext = tmat * v
+                vnext.data = np.sign(vnext.data)
+                if len(vnext.data) == len(v.data):
+                    # flood stalled: the component of the seed is exhausted but
+                    # the mesh has more components, so seed the first tria that
+                    # was not reached yet (its neighbors are unreached, too)
+                    seed = np.setdiff1d(np.arange(tdim), vnext.indices)[0]
+                    vnext = vnext + tmat[:, seed]
+                v = vnext
             endt = time.time()
             print(
                 f"Searched mesh after {count} flood iterations ({endt - startt} sec)."
